@@ -1,7 +1,7 @@
 (* Correspondence obligations for C18: what the implementation was observed to do on a generated Go type
    and value (harness/cmd/c18) against what the model of coq/Model/Reflect.v computes. *)
 From Coq Require Import ZArith NArith Bool List.
-From PcoreV Require Import Model.Base Model.Reflect Model.ReflectNamed.
+From PcoreV Require Import Model.Base Model.Reflect Model.ReflectNamed Model.ReflectTypeSet.
 Import ListNotations.
 Open Scope Z_scope.
 
@@ -185,7 +185,11 @@ Inductive ncase :=
         (back : res gval)       (* Reflector.Reflect2(wrapped, the Go type) *)
 | ACase (has_parent : bool)     (* the object type was derived with a declared parent *)
         (fs : list (str * bool))        (* the fields of the struct: Go name, embedded? *)
-        (own : list str).       (* the attributes the derived object type declares itself (parent's excluded), in order *)
+        (own : list str)        (* the attributes the derived object type declares itself (parent's excluded), in order *)
+| TCase (ts_name : str) (aliases : list (str * str))
+        (decls : list sdecl)    (* the structs handed to Reflector.TypeSetFromReflect, in the order of the argument list *)
+        (seen : list tsentry).  (* the entries of the type set in their order: key, name of the type, name of its parent,
+                                   the attributes the type declares itself *)
 
 Definition c18n_check (tbl : list (Z * str)) (c : ncase) : bool :=
   match c with
@@ -197,6 +201,7 @@ Definition c18n_check (tbl : list (Z * str)) (c : ncase) : bool :=
       Bool.eqb acc (inst (ptype_n t m) w) &&
       res_eqb gval_eqb back (reflect_to t w)
   | ACase p fs own => str_eqb_list own (own_attr_names p fs)
+  | TCase n al decls seen => list_eqb tsentry_eqb seen (typeset_entries n al decls)
   end.
 
 Definition c18n_mismatches (tbl : list (Z * str)) (cs : list ncase) : list N := failing (c18n_check tbl) cs.
